@@ -1,5 +1,7 @@
 use super::runner::{Codec, Property};
 
+pub mod c02;
+
 pub mod c03;
 pub mod c04;
 pub mod c05;
@@ -19,5 +21,5 @@ pub mod c18;
 pub mod c19;
 
 pub fn all<C: Codec>() -> Vec<Property> {
-    vec![c03::property::<C>(), c04::property::<C>(), c05::property::<C>(), c06::property::<C>(), c07::property::<C>(), c08::property::<C>(), c11::property::<C>(), c12::property::<C>(), c13::property::<C>(), c14::property::<C>(), c15::property::<C>(), c16::property::<C>(), c17::property::<C>(), c18::property::<C>(), c19::property::<C>()]
+    vec![c02::property::<C>(), c03::property::<C>(), c04::property::<C>(), c05::property::<C>(), c06::property::<C>(), c07::property::<C>(), c08::property::<C>(), c11::property::<C>(), c12::property::<C>(), c13::property::<C>(), c14::property::<C>(), c15::property::<C>(), c16::property::<C>(), c17::property::<C>(), c18::property::<C>(), c19::property::<C>()]
 }
